@@ -25,6 +25,15 @@ def build_driver():
 
 
 def extract(root, out, target):
+    # one extraction per target directory at a time: runs with different fact caches (scratch copies of the tree) may share
+    # one warm target directory, and the fingerprint reset below must not hit a cargo that is still running there
+    os.makedirs(os.path.dirname(os.path.abspath(target)) or "/", exist_ok=True)
+    with open(os.path.abspath(target).rstrip("/") + ".lock", "w") as tl:
+        fcntl.flock(tl, fcntl.LOCK_EX)
+        _extract_locked(root, out, target)
+
+
+def _extract_locked(root, out, target):
     build_driver()
     tmp = out + ".tmp%d" % os.getpid()
     shutil.rmtree(tmp, ignore_errors=True)
